@@ -10,16 +10,11 @@ import (
 // hooks the sequential interpreter calls.
 
 type channel struct {
-	buf    []value
-	cap    int
-	closed bool
-	id     int
-	// happens-before bookkeeping (gor.go)
-	sendClk []vclock
-	recvCnt int
-	sendCnt int
-	closeClk vclock
-	recvClk []vclock
+	buf         []value
+	cap         int
+	closed      bool
+	closeClk    vclock
+	recvWaiting int
 }
 
 type gorState struct {
